@@ -68,6 +68,7 @@ type crashCtx struct {
 	synced  map[string]int64 // base name → fsynced length
 	retry   *klevdb.Options  // the operation in flight is an Open with these options: it is retried on the image
 	noImg   bool             // tap only tracks fsynced lengths, no snapshots
+	nonMono bool             // the times published in this history are not monotone (deleted messages count: the index carries their times)
 }
 
 func (c *crashCtx) opts(recover bool) klevdb.Options {
@@ -232,7 +233,9 @@ func (c *crashCtx) viewsAgree(l klevdb.Log, all []klevdb.Message, next int64) st
 			}
 		}
 	}
-	if c.times {
+	if c.times && !c.nonMono {
+		// (time lookups are promised for histories whose times never decrease with offset - the deleted messages included,
+		// whose times the index carries on; the live messages alone being in order is not enough)
 		mono := true
 		for i := 1; i < len(all); i++ {
 			if all[i].Time.Before(all[i-1].Time) {
@@ -357,6 +360,7 @@ func genCrash(w *bufio.Writer, root string, seed uint64, n, ops int, thorough bo
 		t := int64(1_000_000)
 		keys := []string{"", hexKey("a"), hexKey("b"), hexKey("ab")}
 		nonMono := r.chance(30)
+		c.nonMono = nonMono
 		dipLeft, dipT := 0, int64(0)
 
 		// every op runs under the tap; its images are observed right after it
